@@ -86,7 +86,27 @@ func runC14(c *Ctx, ev *Evidence) ([]Violation, error) {
 		ev.Query("C14-inv-step", r)
 		ev.Sample(map[string]interface{}{"query": "C14-inv-step: skipClosingTag <=> stack non-empty is preserved by every loop iteration", "verdict": r.Status.String(), "seconds": r.Seconds})
 		if r.Status != smt.Unsat {
-			ev.Inconclusive("stack invariant not inductive: " + r.Status.String())
+			// look for a concrete token sequence from the initial state that breaks the
+			// invariant and then reaches an end tag (which indexes the stack)
+			lr.InputSuffix = "</zz>" // an end tag after the broken state indexes the stack
+			found, details, replays, werr := c.searchWitness(lr, ev, "C14-inv", 4, nil, func(steps []*StepVars) *smt.Term {
+				post := steps[len(steps)-1].Post
+				return smt.And(smt.Not(steps[len(steps)-1].Returned), post["skipClosingTag"].(*smt.Term), smt.Eq(post["closingTagToSkipStack"].(*sym.SymSliceV).Len, smt.IntC(0)))
+			}, func(w *seqWitness, res map[string]interface{}) (bool, string) {
+				if p, ok := res["panic"]; ok {
+					return true, fmt.Sprintf("Sanitize panics: %v", p)
+				}
+				return false, ""
+			}, 5*time.Minute, nil, 6)
+			lr.InputSuffix = ""
+			if werr != nil {
+				return nil, werr
+			}
+			if len(found) > 0 {
+				viols = append(viols, Violation{Sig: "site=loop stack-invariant", Detail: "skipClosingTag <=> non-empty stack is broken and the stack is indexed: " + details[0], Replay: replays[0]})
+			} else {
+				ev.Inconclusive("stack invariant not inductive: " + r.Status.String())
+			}
 		}
 		safety(lr.In, lr.Steps.Safety, "loop", func(ob *sym.Obligation) []*smt.Term {
 			if ob.Pre == nil {
